@@ -47,6 +47,11 @@ CHECKS = {
             "The merge laws hold in every one of the 20736 states and the implementation reproduces the whole table (inputs unmodified, idempotent); validation is replayed for every documented field x value class on three valid bases in both file formats. Exhaustive on the finite tree domain, complete over single-field perturbations.",
             "Trusted: value classes the documentation is silent on are not generated; 'rejected' = any exception; trees over 2 keys / 2 leaves / depth 2.",
             "DESIGN.md section 4 C16"),
+    "C05": ("model_checking",
+            "TLC model of the calculation pipeline with provenance sets (spec/Pipeline.tla: non-interference invariants, exported dependency relation) composed with the TLC-derived value specification of C01-C04 (Thermo normal forms, SchedInstance target terms); end-to-end replay of Calculator on in-class synthetic file triples + taint conformance",
+            "Every isothermal/adiabatic modulus at every grid point of end-to-end runs on synthetic file triples (nine systems with invariant tensor fields and sufficient column subsets; free component sets with mixed shear keys; with/without lattice block) equals static(model function of the files) + phonon(TLC-derived) to 2e-6 (observed 2e-9); the provenance relation of the pipeline model is checked by perturbing one input class at a time.",
+            "Trusted: QHA/numpy.polyfit/scipy interpolators as dependencies (P_total, C_V, static pressure taken from the running object, as the property names them inputs); data sets are in the class on which the interpolators are exact; strain fractions compared within the sampled volume range (1e-2).",
+            "DESIGN.md section 4 C05"),
 }
 
 NOT_YET = {
